@@ -51,13 +51,22 @@ func c19RunProviders(c *fw.Ctx, idp *harness.FakeIdP) {
 		{"503", ans(503, `unavailable`), false},
 		{"302-to-a-login-page", ans(302, ``), false},
 		{"connection-reset", harness.AuthAnswer{Reset: true}, false},
+		{"first-call-503-then-200", ans(503, `unavailable`), false},
 	}
 	drive(c, "provider-revocation", -1, func(x *explore.Exec, owned bool) {
 		pv := provs[x.Choose("provider", len(provs))]
 		an := answers[x.Choose("revocation-answer", len(answers))]
 		withRefresh := x.Choose("session-has-refresh-token", 2) == 0
 		calls := 0
-		idp.Answer = func(cl *harness.IdPCall) harness.AuthAnswer { calls++; cl.Answer = describeAnswer(an.a); return an.a }
+		idp.Answer = func(cl *harness.IdPCall) harness.AuthAnswer {
+			calls++
+			a := an.a
+			if an.name == "first-call-503-then-200" && calls > 1 {
+				a = ans(200, `{}`)
+			}
+			cl.Answer = describeAnswer(a)
+			return a
+		}
 		s := &sessions.SessionState{AccessToken: "idp-access-token", RefreshToken: "idp-refresh-token", Email: "bob@corp.test"}
 		if !withRefresh {
 			s.RefreshToken = ""
